@@ -989,6 +989,37 @@ func cmdDrive(args []string) int {
 					logged(model.Op{Op: "ClearO", R: host, V: none})
 				}
 			}
+			if d.bigObj && s == 9 {
+				// fill an object completely, then remove most of its fields in ONE call (several times, other proportions),
+				// refill a few, remove the rest in one call
+				none := model.Val{K: "none"}
+				before := len(d.cur)
+				logged(model.Op{Op: "NewObject", V: none})
+				if len(d.cur) == before+1 {
+					ob := before + 1
+					for round, pct := range []int{88, 60, 97} {
+						o := model.Op{Op: "Set", R: ob, V: none}
+						for k := 1; k <= d.nkeys; k++ {
+							o.Vs = append(o.Vs, model.Val{K: "str", V: k}, model.Val{K: "int", V: (k + round) % 10})
+						}
+						logged(o)
+						perm := rng.Perm(d.nkeys)
+						u := model.Op{Op: "Unset", R: ob, V: none}
+						for _, k := range perm[:d.nkeys*pct/100] {
+							u.Ks = append(u.Ks, k+1)
+						}
+						logged(u)
+						logged(model.Op{Op: "ForEach", R: ob, I: 8, V: none})
+						logged(model.Op{Op: "Text", R: ob, V: none})
+						rest := model.Op{Op: "Unset", R: ob, V: none}
+						for _, k := range perm[d.nkeys*pct/100:] {
+							rest.Ks = append(rest.Ks, k+1)
+						}
+						rest.Ks = append(rest.Ks, 1, 2) // already gone or going: no-ops
+						logged(rest)
+					}
+				}
+			}
 			if big && s%7 == 3 {
 				// a container at the very end of the longest list, then a deep copy of that list
 				ls := d.ids("L")
